@@ -1,5 +1,6 @@
 """C03 - the workspace equals a simple model after any history (spec/workspace/Workspace.tla)."""
 from .. import wsfamily as F
+from ..tlaparse import FrozenDict
 
 PID = "C03"
 
@@ -14,6 +15,11 @@ def configs(ctx):
                  5 if q else 6, "typed", limit=5000 if q else 200000, invariants=("HashInvX", "CheckPassesX"), properties=("NoClobber",)),
         F.Config("two-projects", ["open_sp", "open_id", "init", "remove", "setkey", "docset", "writefile", "move", "clone", "copy", "restart", "update_cache"],
                  4 if q else 5, "nested", projects=("P", "Q"), limit=4000 if q else 150000, invariants=("HashInvX", "CheckPassesX"), properties=("NoClobber",)),
+        # two jobs differing only in the JSON type of one value: collisions / roll-backs among ==-equal values
+        # (whole-mapping routes - assignment, update_statepoint, sp.update - are left out here: the dependency's in-place
+        #  update ignores ==-equal values of another JSON type, a known finding reported by C04's value-shape scenarios)
+        F.Config("typed-collisions", ["open_sp", "open_id", "open_iter", "setkey", "sp_setdefault", "sp_pop", "readsp", "init", "docset", "copy"], 5 if q else 6, "typed",
+                 init_jobs=[FrozenDict(a="i0", b="-"), FrozenDict(a="i1", b="-")], limit=5000 if q else 200000, invariants=("HashInvX", "CheckPassesX"), properties=("NoClobber",)),
         F.Config("strays", ["stray", "open_sp", "open_iter", "init", "restart", "update_cache", "remove"], 4 if q else 5, "mixed", limit=2000 if q else 60000,
                  invariants=("HashInvX",)),
         F.Config("populated", full, 3 if q else 4, "mixed", init_jobs=2, init_cache=(False, True), limit=4000 if q else 150000,
